@@ -71,6 +71,11 @@ CHECKS = {
    text="Exhaustive within the bound: all assignments of 8 operations to 2 goroutines x 1 operation (quick; + 3 goroutines x 1 and 2 goroutines x 2 operations thorough) with every interleaving of their lock / begin-access / end-access steps; the unlocked-read variant of the pinned commit and a split-lock Parse are shown to violate the invariants. On the real code every distinct mix runs as 2 real goroutines per model goroutine for 1500 rounds under the race detector; corpus templates (loops, scopes, partials, faults; more generators in thorough) run from 2/8/32 goroutines with own child contexts of a shared parent or own roots, cache off/on: any race report, runtime abort, panic or result differing from the sequential result is a violation.",
    note="Race freedom of the implementation is observed by the race detector on the schedules that occur (probabilistic); the model decides the design's lock discipline for all interleavings. Needs cgo (race detector) - present in this sandbox.",
    design="§6 C14"),
+ "C03": dict(
+   technique="TLC enumeration of token sequences in every tag framing (Soup.tla, BFS exhaustive + seeded simulation) replayed into the real Parse/Render under a watchdog; harness-side byte mutations of TLC-generated well-formed programs and deep nestings",
+   text="Exhaustive within the bound: every sequence of <=2 tokens over 50 token classes and <=3 tokens over 30 classes (quick; <=3 over 50 and <=4 over 30 thorough: about 1M sequences) x 5 framings, plus seeded random soup of up to 30 tokens (every successor of every visited state), 40 (quick) / 200 (thorough) byte-level mutations of each of 240 / 2400 generated programs, and 16 bracketing constructs nested to depth 256. Oracle: Parse and Render return within 3 s and do not panic.",
+   note="Verdict by enumeration and observation of the real parser; the TLA+ side contributes the input space (and, where ParserCtl.tla is present, termination of the control skeleton). Inputs outside the enumerated token classes are only reached by mutations.",
+   design="§6 C03"),
 }
 
 NOT_YET = "check not built yet in this session (work in progress, see DESIGN.md §8)"
